@@ -292,6 +292,7 @@ func init() {
 				add("plain-k3", merge(base, p("k", 3, "ops", opPut|opDelete|opRestart, "vlens", 3, "vbig", 25, "dfs_lo", 40, "dfs_hi", 160)))
 				add("batch-k2", merge(base, p("k", 2, "ops", opPut|opDelete|opBatch, "bmax", 2, "dfs_lo", 60, "dfs_hi", 160)))
 				add("merge-k3", merge(base, p("k", 3, "ops", opPut|opDelete|opMerge, "dfs_lo", 60, "dfs_hi", 160)))
+				add("merge-restart-k3-btree", merge(base, p("k", 3, "ops", opPut|opDelete|opMerge|opRestart, "index", 1, "dfs_lo", 60, "dfs_hi", 100, "vlens", 1)))
 			} else {
 				add("plain-k4", merge(base, p("k", 4, "ops", opPut|opDelete|opRestart, "vlens", 3, "vbig", 25, "dfs_lo", 40, "dfs_hi", 160)))
 				add("batch-k3", merge(base, p("k", 3, "ops", opPut|opDelete|opBatch|opRestart, "bmax", 2, "dfs_lo", 60, "dfs_hi", 160)))
